@@ -260,6 +260,22 @@ def _then_merge(t):
     return t
 
 
+_GENERIC_PARAM = re.compile(r"(?:impl [\w:<>, ]+?|[A-Za-z_]\w*)/#(\d+)")
+
+
+def _map_strings(t, f):
+    """the term with f applied to every string atom (names, patterns, type strings)"""
+    if isinstance(t, str):
+        return f(t)
+    if isinstance(t, tuple):
+        return tuple(_map_strings(x, f) for x in t)
+    if isinstance(t, list):
+        return [_map_strings(x, f) for x in t]
+    if isinstance(t, dict):
+        return {k: _map_strings(v, f) for k, v in t.items()}
+    return t
+
+
 def _canon_match_free(scr, arms):
     return Norm._canon_match(_FREE, scr, arms)
 
@@ -1485,6 +1501,21 @@ class Norm:
         r = _unreturn(rewrite(t, subst))
         if _has_ret(r):
             return None          # a `return` of the helper that is not in tail position would read as a return of the caller
+        if "/#" in _show(r):
+            # the helper's own generic parameters (`T/#0`) stand for the arguments of THIS call
+            g = str(node.get("gen") or "")
+            gargs = [x.strip() for x in _split_top(g[1:-1], ",")] if g.startswith("[") and g.endswith("]") else []
+            failed = []
+
+            def gsub(m):
+                i = int(m.group(1))
+                if i >= len(gargs):
+                    failed.append(i)
+                    return m.group(0)
+                return gargs[i]
+            r = _map_strings(r, lambda x: _GENERIC_PARAM.sub(gsub, x) if "/#" in x else x)
+            if failed:
+                return None
         return r
 
     def _is_mut_local_effect(self, node):
